@@ -98,6 +98,9 @@ package contentstream
 //@   requires pinv(p) && p.pos < len(p.data)
 //@   ensures pinv(p) && psame(p, old(p)) && p.pos >= old(p.pos) && (!err ==> p.pos > old(p.pos))
 //@   ensures closing_bracket_is_consumed: !err ==> p.pos == len(p.data) || p.data[p.pos-1] == '>'
+// an odd final digit is the HIGH half of the last byte (the missing digit counts as 0), as in the document parser
+//@   callsite WriteByte#1(b) requires odd_final_digit_is_the_high_nibble: b == 16 * pdfHexVal(c)
+//@   callsite WriteByte#2(b) requires odd_final_digit_is_the_high_nibble: b == 16 * pdfHexVal(c)
 //@   loop 0:
 //@     invariant pinv(p) && psame(p, old(p)) && p.pos > old(p.pos)
 //@     step white_space_ignored: pdfWS(p.data[prev(p.pos)]) ==> p.pos == prev(p.pos) + 1 && len(result) == prev(len(result))
